@@ -19,14 +19,17 @@ func flattenCase(g *Gen, o flatOpts, plus bool, repeats, permutes int, faults bo
 	// KeepNames applies to single-document bundles: decided first, so that half of them use plain names only
 	keep := !o.Expand && g.p(0.2)
 	bo := BundleOpts{Plus: plus, AnonOK: anon, SharedOK: anon && !o.RemoveUnused, MaxAux: 3}
-	scenarios := []string{"collide-pointer", "collide-many", "collide-nested", "unused-chain", "expand-via-response", "collide-simple-shared", "prefix-names", "ref-siblings", "generated-name-clash", "case-twins", "digit-siblings", "odd-status"}
+	scenarios := []string{"collide-pointer", "collide-many", "collide-nested", "unused-chain", "expand-via-response", "collide-simple-shared", "prefix-names", "ref-siblings", "generated-name-clash", "case-twins", "digit-siblings", "odd-status", "pointer-chain-sections"}
 	if !keep && !plus && index%2 == 0 {
 		// every second bundle carries a planted interplay shape, taken in turn
 		bo.Scenario = scenarios[(index/2)%len(scenarios)]
 		if !anon && bo.Scenario == "collide-pointer" {
 			bo.Scenario = "collide-many"
 		}
-		if g.p(0.6) {
+		if bo.Scenario == "pointer-chain-sections" && !bo.SharedOK {
+			bo.Scenario = "case-twins"
+		}
+		if g.p(0.6) && bo.Scenario != "pointer-chain-sections" {
 			// focus: no other anonymous pointer competes with the planted shape
 			bo.AnonOK, bo.SharedOK = false, false
 		}
@@ -218,12 +221,27 @@ func flattenDriverIn(c *Case) any {
 	for r, t := range outRefs[""].(M) {
 		refToks[r] = get(t, "tokens")
 	}
+	// what the operations index of the namer asks about the output document (C08: Flatten.isNF)
+	xt := newExtTables()
+	if paths, ok := get(out, "paths").(map[string]any); ok {
+		for p, pi := range paths {
+			xt.answer("mkRef", "#/paths/"+jsonPtrEscape(p))
+			if pim, ok := pi.(map[string]any); ok {
+				for _, m := range allMethods {
+					if _, has := pim[m]; has {
+						xt.answer("goName", m+" "+p)
+						xt.answer("mkRef", "#/paths/"+jsonPtrEscape(p)+"/"+strings.ToUpper(m))
+					}
+				}
+			}
+		}
+	}
 	return M{
 		"in":    M{"docs": inDocs, "refs": inRefs},
 		"out":   M{"docs": outDocs, "refs": outRefs},
 		"opts":  get(c.In, "opts"),
 		"canon": canonicalDefRefs(out),
-		"ext":   M{"knownFormats": knownFormatsIn(out), "refTokens": refToks},
+		"ext":   M{"knownFormats": knownFormatsIn(out), "refTokens": refToks, "mkRef": xt.mkRef, "goName": xt.goName, "statusText": xt.statusText},
 	}
 }
 
